@@ -11,3 +11,5 @@ func verifTrace(kind string, a int, b int, s string) {}
 func verifPtr(p any) string { return "" }
 
 func verifFlags(a bool, b bool) int { return 0 }
+
+func verifSnapshotEnd(snapshot []*Chunk) int { return 0 }
